@@ -324,7 +324,11 @@ LensR(p, pre, m, f, o, r) ==
     [] p = "C12" ->
          /\ BlockedBy(pre, m) => res # "ok"
          /\ <<o.post.pausedBM, o.post.pausedSR>> = <<r.post.pausedBM, r.post.pausedSR>>
-         /\ ((pre.pausedBM \/ pre.pausedSR) /\ exp.res = "ok" /\ ~DontCare(m)) => res = "ok"   \* unnamed flows / admin stay available
+         \* unnamed flows and administrative actions stay available: where the specification lets the transaction
+         \* through although a flag is set and the code refuses it, the refusal must not be the pause's doing --
+         \* the identical, unpaused chain (the harness' counterfactual run `cf`) refuses it too
+         /\ ((pre.pausedBM \/ pre.pausedSR) /\ exp.res = "ok" /\ ~DontCare(m) /\ res # "ok") =>
+               ("cf" \in DOMAIN o /\ o.cf # "ok")
     [] p = "C13" ->
          /\ ThresholdOK(o.post)
          /\ (m.type \in AttMgrTypes /\ ~DontCare(m)) =>
